@@ -1,6 +1,7 @@
 package props
 
 import (
+	"encoding/json"
 	"fmt"
 	"os"
 	"regexp"
@@ -618,8 +619,26 @@ func c17Shard(tier string, shard, n int) *CustomResult {
 	}, Violations: run.found, Harness: run.harness}
 }
 
+// the placement decision and the creation of the queue are separated by the partition lock, a reload can land in between:
+// registered when the package is initialised (the worker processes look the shard function up by name)
+var c17Part = c14Part("C17", "c17ilv", "step-C17-", func(n string) bool {
+	return strings.HasPrefix(n, "S32-") || strings.HasPrefix(n, "S25-") || strings.HasPrefix(n, "S6-")
+})
+
 func checkC17(tier string, seed int64) *CustomResult {
 	res := runSharded("c17", tier, shardCount())
+	r2 := c17Part(tier)
+	res.Violations = append(res.Violations, r2.Violations...)
+	res.Harness = append(res.Harness, r2.Harness...)
+	for k, x := range r2.Coverage {
+		if k == "exhaustive" {
+			if b, ok := x.(bool); ok && !b {
+				res.Coverage["exhaustive"] = false
+			}
+			continue
+		}
+		res.Coverage["interleaving_"+k] = x
+	}
 	res.Coverage["rule"] = "every rule chain of length 0..1 over {provided,user,tag,fixed(a|root.p.x|root.p.dyn|dyn)} x create x filter {none, allow u1, deny u1, allow group g1 (+2 thorough)} x parent rule {none, fixed p, fixed np+create, tag ns+create (may yield the leaf a) (+2 thorough)}, every pair of a reduced rule set, x 11 ACL layouts on root/a/p/x (+ root.default present or not) x users {u1[g1], u2[], u3[g1,g2]} x 12 requested queue names x 4 tag values x forced flag; every application is submitted to the real core twice per configuration: from the initial tree (application removed and dynamic queues cleaned afterwards) and with carry-over of created queues. non-trivial = the reference or the core accepts the application (distinct by configuration, tree and application)"
 	res.Coverage["applications_per_configuration"] = len(c17Apps())
 	res.Coverage["explanation"] = "the reference evaluator is given the queue tree the real core reports immediately before the submission"
@@ -628,6 +647,33 @@ func checkC17(tier string, seed int64) *CustomResult {
 
 func init() {
 	ShardFuncs["c17"] = c17Shard
-	registerCheck(&CheckDef{Prop: "C17", Level: "exploration", Technique: "bounded exhaustive enumeration of placement configurations x applications on the real core against an independent reference evaluator plus the statement's invariants", Custom: checkC17,
+	registerCheck(&CheckDef{Prop: "C17", Level: "exploration", Technique: "bounded exhaustive enumeration of placement configurations x applications on the real core against an independent reference evaluator plus the statement's invariants", Custom: checkC17, Replay: replayC17,
 		Assumptions: []string{"user/group resolution is the one the shim supplies in the request (no OS/LDAP lookup)", "name alphabets as listed in rule"}})
+}
+
+// replayC17: counterexamples of the interleaving part are schedules, the others are inputs of the enumeration
+func replayC17(fp string, raw interface{}) int {
+	if m, ok := raw.(map[string]interface{}); ok {
+		if _, has := m["schedule"]; has {
+			return replayC14(fp, raw)
+		}
+	}
+	want, _ := json.Marshal(raw)
+	cr := checkC17("quick", 0)
+	for _, f := range cr.Violations {
+		got, _ := json.Marshal(f.Custom)
+		if f.Viol.FP == fp && string(got) == string(want) {
+			fmt.Printf("violation: %s %s: %s\ninput: %s\nREPRODUCED\n", f.Viol.Prop, f.Viol.Rule, f.Viol.Detail, got)
+			return 1
+		}
+	}
+	for _, f := range cr.Violations {
+		if f.Viol.FP == fp {
+			got, _ := json.Marshal(f.Custom)
+			fmt.Printf("violation with the same fingerprint: %s %s: %s\ninput: %s\nREPRODUCED (same class)\n", f.Viol.Prop, f.Viol.Rule, f.Viol.Detail, got)
+			return 1
+		}
+	}
+	fmt.Println("not reproduced")
+	return 0
 }
